@@ -16,7 +16,9 @@
      while     c = <<test, body, orelse>>               the test is re-evaluated before every trip; trips 0..2
      for       c = <<iter, target, body, orelse>>       iter evaluated once; trips 0..2
      try       c = <<body, orelse, final>>, hs = handlers
-     handler   kinds = caught kinds (<<>> = all), n/s = `as` name (unbound again at the end), c = <<body>>
+     handler   kinds = caught kinds (<<>> = all), n/s = `as` name (unbound again at the end), c = <<body, type>>
+               type = 0 or the reads of the clause's type expression: evaluated when an exception reaches the clause,
+               whether it then matches or not (clauses are tried in order)
      mayraise  one decision: no exception or one of `kinds`
      raise     kind s;   return / break / continue
    `flavour` of the body: "func" (names bound anywhere in the body are locals: reading them
@@ -55,10 +57,14 @@ Get(n) == IF n \in DOMAIN env /\ env[n] # UNBOUND THEN env[n]
           ELSE Env0(n)
 Set(n, v) == [x \in DOMAIN env \cup {n} |-> IF x = n THEN v ELSE env[x]]
 
-Catches(h, kind) == LET hk == N(h).kinds IN Len(hk) = 0 \/ \E i \in 1..Len(hk) : hk[i] = kind
-FirstHandler(hs, kind) ==
-  LET idx == {i \in 1..Len(hs) : Catches(hs[i], kind)} IN
-  IF idx = {} THEN 0 ELSE hs[CHOOSE i \in idx : \A j \in idx : i <= j]
+\* (a NameError is dispatched like any exception - type expressions on its way are evaluated - but no generated clause catches it)
+Catches(h, kind) == LET hk == N(h).kinds IN kind # NAMEERR /\ (Len(hk) = 0 \/ \E i \in 1..Len(hk) : hk[i] = kind)
+HasType(h) == Len(N(h).c) >= 2 /\ N(h).c[2] # 0
+\* the next clause, from index i on, where dispatch of an exception of this kind stops: a clause whose type expression
+\* has reads to evaluate, or a clause that catches it;  0 = none
+NextStop(hs, kind, i) ==
+  LET idx == {j \in i..Len(hs) : HasType(hs[j]) \/ Catches(hs[j], kind)} IN
+  IF idx = {} THEN 0 ELSE CHOOSE j \in idx : \A j2 \in idx : j <= j2
 
 PInit == /\ pid \in 1..NP
          /\ lenient \in {FALSE, TRUE}
@@ -114,12 +120,23 @@ Normal ==
                  \/ /\ dec' = Append(dec, 0)
                     /\ k' = PushOn(Pop, nd.c[4])
                     /\ UNCHANGED <<env, pend, obs>>
-       [] nd.k = "try" ->       \* phases: 0 start, 1 body running, 2 orelse running, 3 handler running, 4 finally running
-            /\ CASE f.ph = 0 -> k' = PushOn(SetTop(Frame(f.n, 1, NONE)), nd.c[1])
-                 [] f.ph = 1 -> k' = PushOn(SetTop(Frame(f.n, 2, NONE)), nd.c[2])
-                 [] f.ph \in {2, 3} -> k' = PushOn(SetTop(Frame(f.n, 4, NONE)), nd.c[3])
-                 [] f.ph = 4 -> k' = Pop
-            /\ pend' = IF f.ph = 4 THEN f.aux ELSE NONE
+       [] nd.k = "try" ->       \* phases: 0 start, 1 body running, 2 orelse running, 3 handler running, 4 finally running,
+                                \* 10+j the type expression of clause j evaluated (aux = the exception being dispatched)
+            /\ IF f.ph >= 10
+               THEN LET j == f.ph - 10
+                        j2 == NextStop(nd.hs, f.aux.v, j + 1) IN
+                    IF Catches(nd.hs[j], f.aux.v)
+                    THEN k' = PushOn(SetTop(Frame(f.n, 3, NONE)), nd.hs[j]) /\ pend' = NONE
+                    ELSE IF j2 = 0
+                    THEN k' = SetTop(Frame(f.n, 2, NONE)) /\ pend' = f.aux          \* no clause caught it: on to finally
+                    ELSE IF HasType(nd.hs[j2])
+                    THEN k' = PushOn(SetTop(Frame(f.n, 10 + j2, f.aux)), N(nd.hs[j2]).c[2]) /\ pend' = NONE
+                    ELSE k' = PushOn(SetTop(Frame(f.n, 3, NONE)), nd.hs[j2]) /\ pend' = NONE
+               ELSE /\ CASE f.ph = 0 -> k' = PushOn(SetTop(Frame(f.n, 1, NONE)), nd.c[1])
+                         [] f.ph = 1 -> k' = PushOn(SetTop(Frame(f.n, 2, NONE)), nd.c[2])
+                         [] f.ph \in {2, 3} -> k' = PushOn(SetTop(Frame(f.n, 4, NONE)), nd.c[3])
+                         [] f.ph = 4 -> k' = Pop
+                    /\ pend' = IF f.ph = 4 THEN f.aux ELSE NONE
             /\ UNCHANGED <<env, dec, obs>>
        [] nd.k = "handler" ->
             IF f.ph = 0
@@ -143,11 +160,13 @@ Normal ==
 Unwind ==
   /\ pend.t # "none" /\ k # <<>>
   /\ LET f == Top  nd == N(f.n) IN
-     CASE nd.k = "try" /\ f.ph = 1 /\ pend.t = "exc" /\ pend.v # NAMEERR
-                       /\ FirstHandler(nd.hs, pend.v) # 0 ->
-            /\ k' = PushOn(SetTop(Frame(f.n, 3, NONE)), FirstHandler(nd.hs, pend.v))
+     CASE nd.k = "try" /\ f.ph = 1 /\ pend.t = "exc"
+                       /\ NextStop(nd.hs, pend.v, 1) # 0 ->
+            LET j == NextStop(nd.hs, pend.v, 1) IN
+            /\ k' = IF HasType(nd.hs[j]) THEN PushOn(SetTop(Frame(f.n, 10 + j, pend)), N(nd.hs[j]).c[2])
+                                          ELSE PushOn(SetTop(Frame(f.n, 3, NONE)), nd.hs[j])
             /\ pend' = NONE /\ UNCHANGED env
-       [] nd.k = "try" /\ f.ph \in {1, 2, 3} ->      \* run finally with the jump saved
+       [] nd.k = "try" /\ (f.ph \in {1, 2, 3} \/ f.ph >= 10) ->      \* run finally with the jump saved
             IF nd.c[3] = 0
             THEN k' = Pop /\ UNCHANGED <<pend, env>>
             ELSE /\ k' = PushOn(SetTop(Frame(f.n, 4, pend)), nd.c[3])
